@@ -116,7 +116,12 @@ def worker_main(argv: list[str]) -> int:
 
     case_limit = int(os.environ.get("VERIF_CASE_TIMEOUT_S", plan.get("case_timeout_s", 20)))
     signal.signal(signal.SIGALRM, on_alarm)
-    for idx in range(shard, n, nshards):
+    indices = list(range(shard, n, nshards))
+    # cases a check cannot do without (e.g. the repository's test-suite as one workload) run first, so that a worker that
+    # is cut off at its budget on a loaded machine has done them
+    prio = set(getattr(mod, "priority_cases", lambda tier: [])(tier))
+    indices.sort(key=lambda i: (i not in prio, i))
+    for idx in indices:
         if time.monotonic() - t0 > budget:
             res["stopped_early"] = True
             break
